@@ -232,7 +232,7 @@ func genJobs(seed uint64, thorough bool) []job {
 	// 6. multi-layer: mixed main / para transaction lists
 	nmulti := 120
 	if thorough {
-		nmulti = 1000
+		nmulti = 600
 	}
 	for i := 0; i < nmulti; i++ {
 		var txs []txd
@@ -817,7 +817,7 @@ func main() {
 	// the cheap ones so that the evaluation shards are balanced
 	var heavy, light []int
 	for i, j := range js {
-		if len(j.Leaves) > 1500 || len(j.Txs) > 600 {
+		if len(j.Leaves) > 1500 || len(j.Txs) > 150 {
 			heavy = append(heavy, i)
 		} else {
 			light = append(light, i)
